@@ -30,7 +30,8 @@ type Op struct {
 	K     string `json:"k"` // ev plain adv flushall close
 	ID    int    `json:"id,omitempty"`
 	Flush bool   `json:"flush,omitempty"`
-	D     int64  `json:"d,omitempty"` // adv: clock advance in ns
+	Done  bool   `json:"ctx_done,omitempty"` // the call is made with an already cancelled context (the model ignores the context)
+	D     int64  `json:"d,omitempty"`        // adv: clock advance in ns
 }
 type Cfg struct {
 	Broker     bool  `json:"broker"`
@@ -45,6 +46,10 @@ type Case struct {
 	Gen string `json:"gen"`
 	Cfg Cfg    `json:"cfg"`
 	Ops []Op   `json:"ops"`
+	// IDMap, when set, maps the id numbers of the ops to entries of the id value table (model id = the entry's number)
+	IDMap []int `json:"id_map,omitempty"`
+	// AllDone: every call of the history is made with an already cancelled context
+	AllDone bool `json:"all_ctx_done,omitempty"`
 	// concurrent cases: one op list per goroutine, Ops unused
 	Threads [][]Op `json:"threads,omitempty"`
 	Ticker  int64  `json:"ticker,omitempty"` // a goroutine advances the clock by this much between yields
@@ -78,7 +83,9 @@ type world struct {
 
 var cur *world // the world of the case being executed (ComposeFrom may be called on a nil receiver)
 
-var idName = []string{"", "a", "b", "c", "d", "e"}
+// the id values: plain tokens, ids with leading / trailing / inner white space (6..10: distinct ids that differ from "a" only by
+// white space), a very long id, a non-ASCII id, an id made of white space only (not empty: gated like any other id)
+var idName = []string{"", "a", "b", "c", "d", "e", " a", "a ", " a ", "a b", "\ta\n", strings.Repeat("x", 300), "ä-日本-🔥", " "}
 
 func idNum(s string) int {
 	for i, n := range idName {
@@ -336,6 +343,15 @@ func execCaseInner(c Case, at *int32) (calls []Op, nums []int, obs []Obs, panick
 		w.sentGateable = false
 		w.mu.Unlock()
 		o := Obs{Now: atomic.LoadInt64(&w.now)}
+		if op.K == "ev" && c.IDMap != nil && op.ID < len(c.IDMap) {
+			op.ID = c.IDMap[op.ID]
+		}
+		ctx := ctx
+		if op.Done || c.AllDone {
+			dctx, cancel := context.WithCancel(ctx)
+			cancel()
+			ctx = dctx
+		}
 		switch op.K {
 		case "ev":
 			ev := &el.Event{Type: "t", Payload: &gp{id: idName[op.ID], flush: op.Flush, n: n}}
@@ -1002,6 +1018,11 @@ func stateKey(c Case, obs []Obs, calls int) string {
 // genBFS: every history up to maxDepth over the alphabet, up to equality of the implementation state reached
 // (a history is extended only if it reached a state not seen before; every transition out of every such state is emitted)
 func genBFS(e *emitter, cfg Cfg, ids, maxDepth, budget int, sym bool) (states int, exhaustive bool) {
+	return genBFSv(e, cfg, ids, maxDepth, budget, sym, nil, false)
+}
+
+// genBFSv: the same enumeration with the ids drawn from idMap and / or every call made with a cancelled context
+func genBFSv(e *emitter, cfg Cfg, ids, maxDepth, budget int, sym bool, idMap []int, allDone bool) (states int, exhaustive bool) {
 	alpha := alphabet(cfg, ids)
 	seen := map[string]bool{"empty": true}
 	frontier := [][]Op{nil}
@@ -1020,7 +1041,13 @@ func genBFS(e *emitter, cfg Cfg, ids, maxDepth, budget int, sym bool) (states in
 					continue
 				}
 				ops := append(append([]Op(nil), h...), a)
-				c := Case{Gen: "bfs", Cfg: cfg, Ops: ops}
+				c := Case{Gen: "bfs", Cfg: cfg, Ops: ops, IDMap: idMap, AllDone: allDone}
+				if idMap != nil {
+					c.Gen = "bfs-ids"
+				}
+				if allDone {
+					c.Gen = "bfs-ctx-done"
+				}
 				var obs []Obs
 				if a.K == "adv" {
 					// a clock advance is not a call: nothing to observe yet, extend without emitting
@@ -1089,6 +1116,17 @@ func genRandom(e *emitter, r *hc.Rand, n, maxLen, ids int) {
 		}
 		nids := 1 + r.Intn(ids)
 		flushP := 1 + r.Intn(4) // of 10
+		var idMap []int
+		switch r.Intn(4) {
+		case 0:
+			idMap = []int{0, 6, 1, 7, 8, 10}
+		case 1:
+			idMap = []int{0, 13, 11, 12, 9, 2}
+		}
+		doneP := 0
+		if r.Chance(1, 3) {
+			doneP = 1 + r.Intn(3) // of 6
+		}
 		var ops []Op
 		for len(ops) < ln {
 			switch k := r.Intn(20); {
@@ -1097,7 +1135,7 @@ func genRandom(e *emitter, r *hc.Rand, n, maxLen, ids int) {
 				if r.Chance(1, 25) {
 					id = 0
 				}
-				ops = append(ops, Op{K: "ev", ID: id, Flush: r.Chance(flushP, 10)})
+				ops = append(ops, Op{K: "ev", ID: id, Flush: r.Chance(flushP, 10), Done: r.Chance(doneP, 6)})
 			case k < 12:
 				ops = append(ops, Op{K: "plain"})
 			case k < 17:
@@ -1107,12 +1145,12 @@ func genRandom(e *emitter, r *hc.Rand, n, maxLen, ids int) {
 				}
 				ops = append(ops, Op{K: "adv", D: d})
 			case k < 19:
-				ops = append(ops, Op{K: "flushall"})
+				ops = append(ops, Op{K: "flushall", Done: r.Chance(doneP, 6)})
 			default:
-				ops = append(ops, Op{K: "close"})
+				ops = append(ops, Op{K: "close", Done: r.Chance(doneP, 6)})
 			}
 		}
-		e.emit(Case{Gen: "random", Cfg: cfg, Ops: ops})
+		e.emit(Case{Gen: "random", Cfg: cfg, Ops: ops, IDMap: idMap})
 	}
 }
 
@@ -1275,6 +1313,19 @@ func main() {
 				s, ex := genBFS(e, cfg, *bfsIDs, *bfsDepth, *bfsBudget, *bfsSym)
 				states += s
 				all = all && ex
+				if cfg.CFailLen == 0 && cfg.CGateLen == 0 && cfg.SFail == 0 && cfg.Exp != 0 {
+					// value classes of ids (white space around / inside, long, non-ASCII, white space only) and calls made with a cancelled context
+					d := *bfsDepth
+					if d > 5 {
+						d = 5
+					}
+					for _, m := range [][]int{{0, 6, 1, 7}, {0, 13, 11, 12}, {0, 8, 10, 9}} {
+						s, _ = genBFSv(e, cfg, *bfsIDs, d-1, *bfsBudget, true, m, false)
+						states += s
+					}
+					s, _ = genBFSv(e, cfg, *bfsIDs, d, *bfsBudget, true, nil, true)
+					states += s
+				}
 				if *bfsSym && *bfsNoSymDepth > 0 {
 					s, ex = genBFS(e, cfg, *bfsIDs, *bfsNoSymDepth, *bfsBudget, false)
 					states += s
